@@ -1,0 +1,34 @@
+//go:build verif
+
+// Contracts for deductive verification (comment-only; compiled only with -tags verif).
+// Syntax and semantics: /verif/DESIGN.md §2.6 and Appendix A.
+
+package types
+
+// ---- genesis validation (C16) ---------------------------------------------------------------------------------
+
+//@ func validateGenesisStateValidators
+//@   ensures err == nil ==> forall i int, j int :: 0 <= i && i < j && j < len(validators) ==>
+//@        pkBytes(val(validators[i].ConsensusPubkey).cachedValue) != pkBytes(val(validators[j].ConsensusPubkey).cachedValue)          // C16,C13: consensus_keys_pairwise_distinct
+//@   ensures err == nil ==> forall i int :: 0 <= i && i < len(validators) ==> implements(val(validators[i].ConsensusPubkey).cachedValue, "github.com/cosmos/cosmos-sdk/crypto/types.PubKey")   // C16: every_validator_has_a_key
+//@   ensures (forall i int :: 0 <= i && i < len(validators) ==> implements(val(validators[i].ConsensusPubkey).cachedValue, "github.com/cosmos/cosmos-sdk/crypto/types.PubKey"))
+//@        && (forall i int, j int :: 0 <= i && i < j && j < len(validators) ==> pkBytes(val(validators[i].ConsensusPubkey).cachedValue) != pkBytes(val(validators[j].ConsensusPubkey).cachedValue))
+//@        ==> err == nil                                                                                                          // C16: every_duplicate_free_list_is_accepted
+//@   loop 0 invariant 0 <= $i && $i <= len(validators)
+//@   loop 0 invariant forall j int :: 0 <= j && j < $i ==> implements(val(validators[j].ConsensusPubkey).cachedValue, "github.com/cosmos/cosmos-sdk/crypto/types.PubKey")
+//@        && addrMap[pkBytes(val(validators[j].ConsensusPubkey).cachedValue)] != None
+//@   loop 0 invariant forall s bytes :: addrMap[s] != None ==> (exists j int :: 0 <= j && j < $i && s == pkBytes(val(validators[j].ConsensusPubkey).cachedValue))
+//@   loop 0 invariant forall i int, j int :: 0 <= i && i < j && j < $i ==> pkBytes(val(validators[i].ConsensusPubkey).cachedValue) != pkBytes(val(validators[j].ConsensusPubkey).cachedValue)
+//@   assigns \nothing
+
+//@ func ValidateGenesis
+//@   ensures err == nil ==> data.NextL2Sequence >= 1                                                                               // C16: sequence_starts_at_one
+//@   ensures err == nil ==> forall j int :: 0 <= j && j < len(data.DenomPairs) ==> validDenom(data.DenomPairs[j].Denom)             // C16: denoms_valid
+//@   ensures err == nil && data.BridgeInfo != nil ==> val(data.BridgeInfo).BridgeId != 0                                            // C16: bridge_info_id
+//@   ensures err == nil && data.BridgeInfo != nil ==> len(val(data.BridgeInfo).BridgeAddr) > 0                                      // C16: bridge_info_addr
+//@   ensures err == nil && data.BridgeInfo != nil ==> val(data.BridgeInfo).BridgeConfig.FinalizationPeriod > 0                      // C16,C05: bridge_info_period
+//@   ensures err == nil ==> forall i int, j int :: 0 <= i && i < j && j < len(data.Validators) ==>
+//@        pkBytes(val(data.Validators[i].ConsensusPubkey).cachedValue) != pkBytes(val(data.Validators[j].ConsensusPubkey).cachedValue)   // C16,C13: consensus_keys_pairwise_distinct
+//@   loop 0 invariant 0 <= $i && $i <= len(data.DenomPairs)
+//@   loop 0 invariant forall j int :: 0 <= j && j < $i ==> validDenom(data.DenomPairs[j].Denom)
+//@   assigns \nothing
